@@ -53,6 +53,7 @@ STATIC_DEV = [("dev_ref", "SendByReference"), ("dev_bcast", "BcastExcludesByAddr
               ("dev_raise", "RaiseCutsDelivery"), ("dev_raise_ip", "RaiseCutsDelivery"), ("dev_raise_route", "RaiseCutsDelivery")]
 PORT = 47808
 HANGS = [0]
+RUNAWAY = 120                       # more scheduled deliveries than this at once: the history is cut short
 # the formulas each named deviation can falsify (used to NAME the cause of a failure at a step that shows several of them)
 CASE_MONITORS = {"sender_changed_pdu_after_request": ["FlightKeepsPayload", "PayloadIsWhatWasSent"],
                  "broadcast_withheld_by_source_address": ["BroadcastToAllOthers", "BroadcastNotToSender", "PromiscuousSeesOnce"],
@@ -380,8 +381,8 @@ def run_ops(topo, style, ops, drain=True):
                 ev["opi"] = i
                 evs.append(ev)
         n = 0
-        while drain and rig.pending() and n < 50 + 4 * len(ops):          # (a frame that circulates for ever must not hang the check)
-            n += 1
+        while drain and 0 < rig.pending() <= RUNAWAY and n < 50 + 4 * len(ops):   # (frames that circulate or multiply for ever
+            n += 1                                                                  #  must not hang the check: QuietAtEnd reports)
             k = rig.scheduled()[0][1]["net"]
             lossy = 1 <= k <= len(topo["net"]) and topo["net"][k - 1]["drop"] > 0
             for ev in rig.deliver(8191 if lossy else -1):
@@ -723,7 +724,7 @@ def t_history(job):
         edge = (p * 2048 + 24) // 25
         act(("deliver", rng.choice([rng.randrange(8192), rng.randrange(8192), edge, max(edge - 1, 0), 0, 8191]) if lossy else -1))
     try:
-        while sends < nsends and HANGS[0] < 3:
+        while sends < nsends and HANGS[0] < 3 and rig.pending() <= RUNAWAY and len(evs) < 40 * nsends:
             r = rng.random()
             if r < 0.5:
                 n = rng.choice(endpoints)
@@ -751,7 +752,8 @@ def t_history(job):
             if rng.random() < 0.1:
                 vt.now = vt.now + rng.choice([0.001, 0.5, 3.0])
         budget = 50 + 4 * len(ops)
-        while rig.pending() and HANGS[0] < 3 and budget > 0:               # (a frame that circulates for ever must not hang the check)
+        while 0 < rig.pending() <= RUNAWAY and HANGS[0] < 3 and budget > 0:   # (frames that circulate or multiply for ever must not hang
+                                                                              #  the check: QuietAtEnd reports them)
             budget -= 1
             deliver_one()
         hang = False
